@@ -368,6 +368,9 @@ func runProve(po proveOpts) (res proveResult) {
 		for k := range v.assumed {
 			assumptions[k] = true
 		}
+		for _, n := range v.notes {
+			assumptions["note: "+n] = true
+		}
 		for k := range v.specUsed {
 			trusted["uninterpreted/opaque spec function: "+k] = true
 		}
